@@ -109,6 +109,72 @@ impl std::fmt::Debug for Tk {
     }
 }
 
+/// Drop-tracked element of 24 bytes (Tk is 8): same identity / canary / fault behaviour.
+pub struct Tk24 {
+    inner: Tk,
+    pad: [u64; 2],
+}
+impl Elem for Tk24 {
+    const ETY: &'static str = "tk";
+    fn fresh() -> Tk24 {
+        let inner = Tk::fresh();
+        let p = inner.id() as u64;
+        Tk24 { inner, pad: [p ^ 0x1111, p ^ 0x2222] }
+    }
+    fn id(&self) -> i64 {
+        let p = self.inner.id() as u64;
+        if self.pad == [p ^ 0x1111, p ^ 0x2222] { self.inner.id() } else { -1 }
+    }
+}
+impl Clone for Tk24 {
+    fn clone(&self) -> Tk24 {
+        let inner = self.inner.clone();
+        let p = inner.id() as u64;
+        Tk24 { inner, pad: [p ^ 0x1111, p ^ 0x2222] }
+    }
+}
+impl Default for Tk24 {
+    fn default() -> Tk24 {
+        let inner = Tk::default();
+        let p = inner.id() as u64;
+        Tk24 { inner, pad: [p ^ 0x1111, p ^ 0x2222] }
+    }
+}
+impl std::fmt::Debug for Tk24 {
+    fn fmt(&self, f: &mut std::fmt::Formatter) -> std::fmt::Result {
+        write!(f, "Tk24#{}", self.id())
+    }
+}
+
+/// Plain one-byte element (ids 1..=255 only): no destructor, identity = value.
+#[derive(Debug, PartialEq, Eq)]
+pub struct P1(pub u8);
+impl Elem for P1 {
+    const ETY: &'static str = "plain";
+    fn fresh() -> P1 {
+        let id = next_id();
+        assert!(id < 256, "HARNESS: P1 ids exhausted");
+        P1(id as u8)
+    }
+    fn id(&self) -> i64 {
+        self.0 as i64
+    }
+}
+impl Clone for P1 {
+    fn clone(&self) -> P1 {
+        let n = P1::fresh();
+        ev!("\"ev\":\"clone\",\"src\":{},\"new\":{}", self.0, n.0);
+        n
+    }
+}
+impl Default for P1 {
+    fn default() -> P1 {
+        let n = P1::fresh();
+        ev!("\"ev\":\"mkdef\",\"id\":{}", n.0);
+        n
+    }
+}
+
 /// Plain element: no destructor, identity = value.  Ledger obligations are vacuous for it.
 /// (Not Copy: its Clone is observable, like Tk's, and gives the clone its own identity.)
 #[derive(Debug, PartialEq, Eq)]
@@ -190,3 +256,15 @@ macro_rules! serde_elem {
 serde_elem!(Tk);
 serde_elem!(Pl);
 serde_elem!(TkZ);
+serde_elem!(P1);
+impl serde::Serialize for Tk24 {
+    fn serialize<S: serde::Serializer>(&self, s: S) -> Result<S::Ok, S::Error> {
+        s.serialize_u32(Elem::id(self) as u32)
+    }
+}
+impl<'de> serde::Deserialize<'de> for Tk24 {
+    fn deserialize<D: serde::Deserializer<'de>>(d: D) -> Result<Tk24, D::Error> {
+        let _wire = <u32 as serde::Deserialize>::deserialize(d)?;
+        Ok(crate::serde_drv::mkde::<Tk24>())
+    }
+}
